@@ -39,6 +39,12 @@ type modelSpecies struct {
 // replaySpeciationFrom: initial lists the species that exist before the first arrival (with the genes of their
 // representatives), lastIssued the largest species id issued so far.
 func replaySpeciationFrom(initial []modelSpecies, lastIssued int, arrivals []*genetics.Organism, removedBefore map[int][]*genetics.Species, exact bool, thr, exc, dis, mut float64, rec *Rec) error {
+	return replaySpeciationThr(initial, lastIssued, arrivals, removedBefore, exact, nil, thr, exc, dis, mut, rec)
+}
+
+// replaySpeciationThr: thrs, when given, holds the threshold in force for each arrival (the options of the call that
+// speciated it); otherwise thr applies to all.
+func replaySpeciationThr(initial []modelSpecies, lastIssued int, arrivals []*genetics.Organism, removedBefore map[int][]*genetics.Species, exact bool, thrs []float64, thr, exc, dis, mut float64, rec *Rec) error {
 	distTol := distTol
 	if exact {
 		distTol = func(float64) float64 { return 0 }
@@ -50,6 +56,9 @@ func replaySpeciationFrom(initial []modelSpecies, lastIssued int, arrivals []*ge
 	}
 	lastId := lastIssued
 	for i, o := range arrivals {
+		if thrs != nil {
+			thr = thrs[i]
+		}
 		for _, dead := range removedBefore[i] {
 			if k, ok := known[dead]; ok {
 				species[k].gone = true
@@ -143,6 +152,9 @@ type C08Direct struct {
 	Fast     bool         `json:"fast"`
 	Exact    bool         `json:"exact"`            // dyadic coefficients, no mutation term, threshold equal to an observed distance
 	Remove   []int        `json:"remove,omitempty"` // per batch: species (index modulo the living ones) that goes extinct before the batch, -1 none
+	// BatchThr, when present, gives every batch its own threshold (a caller that adapts the threshold between calls passes
+	// other options to the next call); 0 = Thr
+	BatchThr []float64 `json:"batch_thresholds,omitempty"`
 }
 
 func GenC08Direct() *rapid.Generator[C08Direct] {
@@ -198,6 +210,22 @@ func GenC08Direct() *rapid.Generator[C08Direct] {
 		if c.Exact && k >= 0 {
 			c.Thr = ds[k] // decisions exactly at the threshold
 		}
+		if len(c.Batches) > 1 && rapid.IntRange(0, 2).Draw(t, "adaptive threshold") == 0 {
+			for range c.Batches {
+				bt := 0.0
+				if rapid.Bool().Draw(t, "other threshold") {
+					k2 := rapid.IntRange(0, len(ds)-1).Draw(t, "batch threshold slot")
+					bt = ds[k2]
+					if !c.Exact && k2+1 < len(ds) {
+						bt = (ds[k2] + ds[k2+1]) / 2
+					}
+					if bt <= 0 {
+						bt = 1e-3
+					}
+				}
+				c.BatchThr = append(c.BatchThr, bt)
+			}
+		}
 		if c.Thr <= 0 {
 			c.Thr = 1e-3
 		}
@@ -219,6 +247,7 @@ func CheckC08Direct(c C08Direct, rec *Rec) error {
 	}
 	at := 0
 	removed := map[int][]*genetics.Species{}
+	var thrs []float64
 	gone := 0
 	for bi, b := range c.Batches {
 		if bi < len(c.Remove) && c.Remove[bi] >= 0 && len(pop.Species) >= 2 {
@@ -242,9 +271,21 @@ func CheckC08Direct(c C08Direct, rec *Rec) error {
 			removed[at] = append(removed[at], dead)
 		}
 		batch := arrivals[at : at+b]
+		callOpts := opts
+		thrNow := c.Thr
+		if bi < len(c.BatchThr) && c.BatchThr[bi] > 0 {
+			// another options object for this call, as a caller with an adaptive threshold would pass
+			o2 := o
+			o2.CompatThreshold = c.BatchThr[bi]
+			callOpts, thrNow = o2.Build(), c.BatchThr[bi]
+			rec.Class("batch speciated under another threshold")
+		}
+		for range batch {
+			thrs = append(thrs, thrNow)
+		}
 		at += b
 		pop.VerifAddOrganisms(batch)
-		if err := pop.VerifSpeciate(opts.NeatContext(), batch); err != nil {
+		if err := pop.VerifSpeciate(callOpts.NeatContext(), batch); err != nil {
 			return fmt.Errorf("speciate returned error: %v", err)
 		}
 	}
@@ -259,7 +300,7 @@ func CheckC08Direct(c C08Direct, rec *Rec) error {
 	if c.Exact {
 		rec.Class("exact distances")
 	}
-	if err := replaySpeciationEvents(arrivals, removed, c.Exact, c.Thr, c.Excess, c.Disjoint, c.Mutdiff, rec); err != nil {
+	if err := replaySpeciationThr(nil, math.MinInt64, arrivals, removed, c.Exact, thrs, c.Thr, c.Excess, c.Disjoint, c.Mutdiff, rec); err != nil {
 		return err
 	}
 	if len(pop.Species) > 1 {
@@ -287,6 +328,7 @@ func CheckC08Epochs(sc Scenario, rec *Rec) error {
 			// arrival order of a constructor is the order of pop.Organisms, all species are new
 			return replaySpeciation(pop.Organisms, o.CompatThreshold, o.ExcessCoeff, o.DisjointCoeff, o.MutdiffCoeff, rec)
 		},
+		switched: func(o *neat.Options) { opts = o },
 		before: func(e int, pop *genetics.Population) error {
 			// the representative during the coming speciation is the species' fittest member (fitness values are distinct)
 			reps = map[*genetics.Species][]innovMut{}
@@ -398,6 +440,10 @@ func CheckC08Stepwise(sc Scenario, rec *Rec) error {
 		}
 	}
 	for e := 0; e < sc.Epochs-1; e++ {
+		if sc.Switch != nil && e == sc.Switch.At {
+			opts = sc.Switch.Opts.Build()
+			ctx = opts.NeatContext()
+		}
 		assign(e)
 		if err := exec.NextEpoch(ctx, e, pop); err != nil {
 			rec.Class("history ended by a failing turnover (outside this property, see C02)")
@@ -405,6 +451,13 @@ func CheckC08Stepwise(sc Scenario, rec *Rec) error {
 		}
 	}
 	gen := sc.Epochs - 1
+	if sc.Switch != nil && gen == sc.Switch.At {
+		opts = sc.Switch.Opts.Build()
+		ctx = opts.NeatContext()
+	}
+	if sc.Switch != nil && sc.Switch.At <= gen {
+		rec.Class("options object replaced during the history")
+	}
 	assign(gen)
 	if err := exec.VerifPrepare(ctx, gen, pop); err != nil {
 		rec.Class("history ended by a failing turnover (outside this property, see C02)")
